@@ -82,10 +82,10 @@ DISCHARGE = [
      "count -= 1 under `count > 0`"),
     (r"SeqAccess<'a, 'de> as de::SeqAccess.*next_element_seed/assert:overflow-Sub#1$", ["0_usize < *self.length"],
      "original_remaining - len(): the deserializer's index only grows during the element, so len() only shrinks"),
-    (r"PropertiesIter.*::next/assert:overflow-Add#1$", ["(*self.inner as Encoded).index < <impl [T]>::len(&*(*self.inner as Encoded).props)"],
-     "index += deserialized_bytes(): at most the length of the remaining slice"),
-    (r"PropertiesIter.*::next/assert:overflow-Add#[23]$", [],
-     "index += 1 after props.get(index) returned Some: index < len <= isize::MAX"),
+    (r"PropertiesIter.*::next/assert:overflow-Add#\d+$", ["(*self.inner as Encoded).index < <impl [T]>::len(&*(*self.inner as Encoded).props)"],
+     "index += deserialized_bytes(): at most the length of the remaining slice", r"as Encoded\)\.index, .*deserialized_bytes"),
+    (r"PropertiesIter.*::next/assert:overflow-Add#\d+$", [],
+     "index += 1 after props.get(index) returned Some: index < len <= isize::MAX", r"as (Slice|WithCorrelation)\)\.index, 1_usize\)"),
     (r"PropertiesIter.*::next/call:index#1$", ["(*self.inner as Encoded).index < <impl [T]>::len(&*(*self.inner as Encoded).props)"],
      "props[index..] under index < props.len()"),
     (r"MqttDeserializer::<'a>::len/assert:overflow-Sub#1$", [],
@@ -114,8 +114,10 @@ DISCHARGE = [
      "buffer[..packet_length] with the length take_packet just sliced successfully on the same buffer",
      r"packet_reader\.buffer.*RangeTo\{end: packet_length\}$"),
     (r"handle_packet/call:swap_remove#1$", ["is Some"], "swap_remove(index) with the index position() just returned"),
-    (r"keepalive_send_interval/assert:overflow-Sub#1$", ["0_u64 != Duration::as_millis(&*self.keepalive_interval)"],
-     "keepalive - min(5000, keepalive/2) >= 0 (not inbound-data dependent)"),
+    # x - min(c, x / 2): the subtrahend is at most x / 2 <= x, whatever x is -- identified by the expression, no guard needed
+    (r"keepalive_send_interval/assert:overflow-Sub#\d+$", [],
+     "keepalive - min(5000, keepalive/2) >= 0 for every keepalive (not inbound-data dependent)",
+     r"^SubWithOverflow\((?P<x>.+), Ord::min\((\d+_u64, Div\((?P=x), 2_u64\)|Div\((?P=x), 2_u64\), \d+_u64)\)\)\.1$"),
 ]
 
 
